@@ -191,7 +191,10 @@ def main():
         if not r["exhaustive"]:
             exhaustive = False
             if not r.get("inconclusive"):
-                problems.append("%s: not exhaustive (budget)" % h["name"])
+                if tier == "quick":
+                    problems.append("%s: not exhaustive (budget)" % h["name"])
+                else:
+                    notes.append("%s: wall-clock budget reached before the bound was exhausted; %d paths explored" % (h["name"], r["paths"]))
         for lab in h.get("reach", []):
             if not (r.get("reach") or {}).get(lab):
                 problems.append("%s: reach label %r has no feasible path (vacuous)" % (h["name"], lab))
